@@ -24,6 +24,7 @@ RULE = ("cases = gene layouts built from gap sequences (overlap, touching, cutof
 EXHAUSTIVE = {"quick": True, "thorough": False}
 
 C1, C2 = 3, 6      # the two cutoffs used by the menus (bases)
+RANDOM_PER_SHARD = 4000
 
 
 def _rule(name: str, cut: int, nbh: int, cond: str, sup: Any = None, ext: Any = None) -> Dict[str, Any]:
@@ -85,7 +86,7 @@ def families(tier: str) -> Dict[str, Dict[str, Any]]:
                   "rulesets": PAIRS, "leads": [0, 3], "tails": [0, 6], "cuts": -1},
         # superiors
         "sup3": {"lens": (3, 4, 3), "gaps": six, "hits": [("ab", "b", "a"), ("b", "a", "b"), ("a", "b", "a"),
-                                                           ("b", "ab", "b")],
+                                                           ("b", "ab", "b"), ("ab", "a", "ab")],
                  "rulesets": SUPS, "leads": [0, 5], "tails": [0, 2], "cuts": -1},
         "sup4": {"lens": (3, 3, 4, 3), "gaps": four, "hits": [("a", "b", "b", "a"), ("b", "a", "a", "b")],
                  "rulesets": SUPS, "leads": [0], "tails": [2], "cuts": -1},
@@ -183,15 +184,21 @@ def random_case(rng: Any) -> Dict[str, Any]:
 def run_shard(shard: Dict[str, Any], run: Any) -> None:
     if shard["kind"] == "family":
         fam = families(run.tier)[shard["fam"]]
+        done = 0
         for index, case in enumerate(chk.family_cases(fam)):
             if index % shard["of"] != shard["part"]:
                 continue
             _report(case, run)
+            done += 1
+            if done % 50 == 0 and run.out_of_time():
+                return
         return
-    while not run.out_of_time():
+    done = 0
+    while done < RANDOM_PER_SHARD and not run.out_of_time():
         case = random_case(run.rng)
         if case:
             _report(case, run)
+            done += 1
 
 
 def replay(case: Dict[str, Any]) -> List[str]:
